@@ -9,7 +9,7 @@ let s2b s = (s = "1")
 let show_loc (l : fsloc) : string =
   match l with
   | Inside rel -> "I:" ^ field_of_strs rel
-  | Outside (abs, dbl) -> "O:" ^ b2s dbl ^ ":" ^ field_of_strs abs
+  | Outside abs -> "O:" ^ field_of_strs abs
 
 let show_tgt (t : tgt) : string =
   match t with
